@@ -154,6 +154,13 @@ func (p *revoPKI) responder(issuer *Issued, kind string) *Issued {
 	return d
 }
 
+// freshForADay: the header fields with which HTTP calls a reply current
+func freshForADay(now time.Time) http.Header {
+	return http.Header{"Date": {now.UTC().Format(http.TimeFormat)}, "Last-Modified": {now.Add(-time.Hour).UTC().Format(http.TimeFormat)},
+		"Expires": {now.Add(24 * time.Hour).UTC().Format(http.TimeFormat)}, "Cache-Control": {"max-age=86400, public, no-transform, must-revalidate"},
+		"Content-Type": {"application/ocsp-response"}, "Etag": {`"abc"`}, "Age": {"0"}}
+}
+
 // ---------------------------------------------------------------------------------------------
 // OCSP behaviour alphabet
 
@@ -172,6 +179,7 @@ var ocspAlphabet = []string{
 	"good-self-claims-issuer-id", "good-sibling-claims-issuer-id", "good-delegate-eku-claims-issuer-id",
 	"good-unrelated-key", "good-embedded-foreign",
 	"good-expired", "good-no-nextupdate", "revoked-expired", "good-thisupdate-future",
+	"good-no-nextupdate-http-says-fresh", "revoked-no-nextupdate-http-says-fresh", "good-expired-http-says-fresh",
 	"good-other-serial",
 	"revoked-reason-hold", "revoked-reason-remove-from-crl", "revoked-reason-unspecified", "revoked-reason-aa-compromise", "revoked-reason-hold-at-after-signing",
 	"revoked-at-after-signing", "revoked-at-after-signing-inv-malformed", "revoked-at-after-signing-inv-before", "revoked-at-equal-signing",
@@ -246,6 +254,16 @@ func (c *ocspCtx) behaviour(label string) *httpBehaviour {
 		spec.NextUpdate = c.now.Add(-time.Minute)
 	case "good-no-nextupdate":
 		spec.NextUpdate = time.Time{}
+	case "good-no-nextupdate-http-says-fresh", "revoked-no-nextupdate-http-says-fresh", "good-expired-http-says-fresh":
+		// the signed answer says nothing about (or is past) its next update; the unauthenticated HTTP envelope calls the reply
+		// fresh for a day (RFC 5019 6.2 has responders mirror nextUpdate there — when there is one)
+		spec.NextUpdate = time.Time{}
+		if strings.Contains(label, "expired") {
+			spec.NextUpdate = c.now.Add(-time.Minute)
+		}
+		b := body()
+		b.header = freshForADay(c.now)
+		return b
 	case "good-thisupdate-future":
 		spec.ThisUpdate = c.now.Add(30 * time.Minute)
 	case "good-other-serial":
@@ -702,10 +720,15 @@ type chainCase struct {
 	purposeTS          bool
 	breakChain         string // "", "empty", "bad-leaf-ku", "swap", "wrong-purpose"
 	tags               []string
-	deprecatedValidate bool   // use Revocation.Validate (deprecated API) instead of ValidateContext
-	realCache          bool   // realFetcher only: the fetcher has a cache (a map)
-	realFetcher        bool   // CRLs served over the scripted transport through the real HTTPFetcher
-	cancel             string // "", "before" (context cancelled before the call), "during" (cancelled when the first request arrives), "after"
+	deprecatedValidate bool // use Revocation.Validate (deprecated API) instead of ValidateContext
+	realCache          bool // realFetcher only: the fetcher has a cache (a map)
+	// realFetcher + realCache only: before anything is asked, the cache holds for every distribution point the base list the
+	// server has and a delta list that has expired ("expired-delta"): an entry no longer effective, to be downloaded again
+	plantStale string
+	// the chain is validated this many times on the same validator (fetcher, cache) before the observed validation
+	repeat      int
+	realFetcher bool   // CRLs served over the scripted transport through the real HTTPFetcher
+	cancel      string // "", "before" (context cancelled before the call), "during" (cancelled when the first request arrives), "after"
 	// a sibling of the leaf with this serial (same issuer, same URLs) is checked first, with the same validator, fetcher and
 	// bundle objects: what the call under observation returns must not depend on calls made before it
 	warmupSerial *big.Int
@@ -861,6 +884,7 @@ func runChainCase(r *Runner, cc chainCase, idx int) {
 	pki := &revoPKI{other: getOtherCA(), delegates: map[string]*Issued{}, leaves: map[string]*Issued{}}
 	tr := &scriptedTransport{m: map[string]*httpBehaviour{}, lengthMode: []string{"", "exact", "unknown"}[idx%3]}
 	ft := &scriptedFetcher{m: map[string]*fetchBehaviour{}}
+	staleEntries := map[string]*corecrl.Bundle{}
 	certsIn := []any{}
 	owner := map[string]int{}
 	for i, l := range cc.levels {
@@ -890,6 +914,11 @@ func runChainCase(r *Runner, cc chainCase, idx int) {
 				b = kctx.behaviour(l.crlBeh[j])
 			}
 			ft.m[u] = b
+			if cc.plantStale == "expired-delta" && b != nil && b.bundle != nil && b.bundle.BaseCRL != nil {
+				if sb := kctx.behaviour("delta-expired"); sb != nil && sb.bundle != nil && sb.bundle.DeltaCRL != nil {
+					staleEntries[u] = &corecrl.Bundle{BaseCRL: b.bundle.BaseCRL, DeltaCRL: sb.bundle.DeltaCRL}
+				}
+			}
 			crlEnv[u] = absFetch(b, issuer.Cert)
 			if cc.realFetcher && !servableOverHTTP(b) {
 				// served as a 404 through the real fetcher (see below): a failed download
@@ -1006,12 +1035,24 @@ func runChainCase(r *Runner, cc chainCase, idx int) {
 						tr.m[u] = &httpBehaviour{status: 404, body: []byte("no such list")}
 					}
 				}
+				if idx%2 == 1 {
+					// every other case: HTTP itself calls each list it delivers fresh for a day
+					for _, b := range tr.m {
+						if b.header == nil && b.status == 0 && b.err == nil {
+							b.header = freshForADay(time.Now())
+						}
+					}
+				}
 				hf, herr := corecrl.NewHTTPFetcher(client)
 				if herr != nil {
 					panic(herr)
 				}
 				if cc.realCache {
-					hf.Cache = &lockedCache{m: map[string]*corecrl.Bundle{}}
+					lc := &lockedCache{m: map[string]*corecrl.Bundle{}}
+					for u, e := range staleEntries {
+						lc.m[u] = e
+					}
+					hf.Cache = lc
 				}
 				// what the validator asks of its fetcher is recorded as for the scripted one
 				fetcher = &recordingFetcher{inner: hf, ft: ft}
@@ -1041,6 +1082,18 @@ func runChainCase(r *Runner, cc chainCase, idx int) {
 				ft.log = nil
 				ft.mu.Unlock()
 			}
+			for k := 0; k < cc.repeat; k++ {
+				func() {
+					defer func() { recover() }()
+					_, _ = v.ValidateContext(ctx, revocation.ValidateContextOptions{CertChain: chain, AuthenticSigningTime: st})
+				}()
+				tr.mu.Lock()
+				tr.log = nil
+				tr.mu.Unlock()
+				ft.mu.Lock()
+				ft.log = nil
+				ft.mu.Unlock()
+			}
 			results, err = v.ValidateContext(ctx, revocation.ValidateContextOptions{CertChain: chain, AuthenticSigningTime: st})
 			if cc.cancel == "after" {
 				cancelCtx()
@@ -1060,7 +1113,8 @@ func runChainCase(r *Runner, cc chainCase, idx int) {
 	}
 	impl := map[string]any{}
 	c := &Case{ID: fmt.Sprintf("%s-%d", cc.label, idx), K: "validate", In: in, Impl: impl, Class: cc.label, Tags: cc.tags,
-		Replay: map[string]any{"chain_pem": pemChain(chain), "levels": describeLevels(cc.levels), "mode": cc.mode, "purpose": purposeName, "st_zero": cc.stZero, "checked_first_sibling_serial": cc.warmupSerial, "response_content_length": tr.lengthMode}}
+		Replay: map[string]any{"chain_pem": pemChain(chain), "levels": describeLevels(cc.levels), "mode": cc.mode, "purpose": purposeName, "st_zero": cc.stZero, "checked_first_sibling_serial": cc.warmupSerial, "response_content_length": tr.lengthMode,
+			"cache_planted_with": cc.plantStale, "validations_before_the_observed_one_on_the_same_validator": cc.repeat}}
 	if chainPanicOnly {
 		// C09 runs these cases for one thing only: the call returns
 		chainPanicOnlyCount.Add(1)
